@@ -21,13 +21,13 @@ func init() {
 
 // source-read functions whose error may be io.EOF
 var sourceReads = map[string]bool{
-	"io.ReadFull":                  true,
-	"io.ReadAtLeast":               true,
-	"(*bufio.Reader).ReadBytes":    true,
-	"(*bufio.Reader).ReadString":   true,
-	"(*bufio.Reader).Peek":         true,
-	"(*bufio.Reader).Read":         true,
-	"invoke (io.Reader).Read":      true,
+	"io.ReadFull":                true,
+	"io.ReadAtLeast":             true,
+	"(*bufio.Reader).ReadBytes":  true,
+	"(*bufio.Reader).ReadString": true,
+	"(*bufio.Reader).Peek":       true,
+	"(*bufio.Reader).Read":       true,
+	"invoke (io.Reader).Read":    true,
 }
 
 func runC13(p *Program, r *Result) {
